@@ -439,6 +439,12 @@ class SymInterp(Interp):
             f = self.method_resolver(recv, m)
             if f is not None:
                 return self.inline(f, args, recv=recv)
+        if isinstance(recv, list) and m == "find_map" and len(args) == 1:
+            for x in recv:
+                v = self.call_closure(args[0], [x])
+                if not (v is None or (isinstance(v, Variant) and v.last == "None")):
+                    return v
+            return None
         if isinstance(recv, list):
             if m in ("iter", "into_iter", "iter_mut", "as_slice", "to_vec", "clone", "collect", "copied", "cloned", "as_ref", "by_ref"):
                 return recv if m not in ("to_vec", "clone") else list(recv)
